@@ -19,9 +19,17 @@ def _bad_keys(prop, root):
     import props
     project = Project(root)
     ctx = Ctx(project, "quick")
+    from sa import AnalysisError
+    errs = []
     for rule in props.PROPS[prop]["rules"]:
-        rule(ctx)
-    ctx.verify_floors()
+        try:
+            rule(ctx)
+        except AnalysisError as e:
+            errs.append(str(e))
+    if errs and not any(not i.ok for i in ctx.instances):
+        raise AnalysisError("; ".join(errs))
+    if not errs:
+        ctx.verify_floors()
     return sorted({(i.rule, i.site) for i in ctx.instances if not i.ok}), len(ctx.instances)
 
 
